@@ -22,7 +22,7 @@ use vcommon::kinds::VErr;
 use vcommon::rng::Rng;
 use vespertide_config::{FileFormat, NameCase, VespertideConfig};
 use vespertide_core::{MigrationPlan, TableDef};
-use vespertide_planner::{plan_next_migration, schema_from_plans, validate_migration_plan};
+use vespertide_planner::{find_missing_fill_with, plan_next_migration, schema_from_plans, validate_migration_plan};
 
 const SCHEMA_URL: &str = "https://raw.githubusercontent.com/dev-five-git/vespertide/refs/heads/main/schemas/migration.schema.json";
 
@@ -85,6 +85,10 @@ trait Doc: Serialize + DeserializeOwned {
     const KIND: &'static str;
     const CTOR: &'static str;
     fn gal(&self) -> String;
+    /// the loader's plan validation (plans only)
+    fn validated(&self) -> Option<String> {
+        None
+    }
 }
 impl Doc for TableDef {
     const KIND: &'static str = "table";
@@ -98,6 +102,12 @@ impl Doc for MigrationPlan {
     const CTOR: &'static str = "Plan";
     fn gal(&self) -> String {
         self.gs()
+    }
+    fn validated(&self) -> Option<String> {
+        Some(match validate_migration_plan(self) {
+            Ok(()) => "(Ok tt)".to_string(),
+            Err(e) => format!("(Err {})", VErr(&e).gs()),
+        })
     }
 }
 impl Doc for VespertideConfig {
@@ -200,6 +210,10 @@ fn emit_rt<T: Doc>(out: &mut Out, v: &T, tag: &str) {
         "yaml_err": y1.as_ref().err().or(y2.as_ref().err()),
         "oracle": {"ok": json_ok && yaml_ok, "why": why},
     }));
+    if let Some(vr) = v.validated() {
+        out.cases.push(format!("(ValPlan {} {})", vg, vr));
+        out.side.push(json!({"kind": "val_plan", "tag": tag, "text": serde_json::to_string(v).unwrap_or_default()}));
+    }
 }
 
 fn emit_mut<T: Doc>(out: &mut Out, doc: &J, labels: &[&str]) {
@@ -220,7 +234,7 @@ fn emit_mut<T: Doc>(out: &mut Out, doc: &J, labels: &[&str]) {
 
 /// One evolution: model sets T1..Tn; after each step the plan is computed, filled the way
 /// `revision` fills it, stamped (id / comment / created_at as cmd_revision does) and "written".
-fn emit_evolution(out: &mut Out, rng: &mut Rng, evo: &[Vec<TableDef>], tag: &str, evo_id: usize, history0: Vec<MigrationPlan>) {
+fn emit_evolution(out: &mut Out, rng: &mut Rng, evo: &[Vec<TableDef>], tag: &str, evo_id: usize, history0: Vec<MigrationPlan>, supply: Option<&Vec<(String, String, String)>>) {
     let mut history: Vec<MigrationPlan> = history0;
     for (si, models) in evo.iter().enumerate() {
         for t in models {
@@ -231,6 +245,38 @@ fn emit_evolution(out: &mut Out, rng: &mut Rng, evo: &[Vec<TableDef>], tag: &str
             continue;
         }
         let Ok(baseline) = schema_from_plans(&history) else { break };
+        // `revision --fill-with table.column=value`: user-supplied values are applied first
+        // (revision.rs:190-215, 395-399), whatever they are (empty, spaces, SQL keywords ...).
+        // Enum-typed columns are left to the default answer: an arbitrary string there is rejected by
+        // validate_enum_value, which the proved statement (revision_output_loadable_partial) does not cover.
+        let mut np = np;
+        let mut supplied: Vec<(String, String, String)> = vec![];
+        if supply.is_some() || rng.chance(1, 2) {
+            let mut fv: std::collections::HashMap<(String, String), String> = std::collections::HashMap::new();
+            for item in find_missing_fill_with(&np, &baseline) {
+                let fixed = supply.and_then(|l| l.iter().find(|(t, c, _)| *t == item.table && *c == item.column).map(|x| x.2.clone()));
+                if item.enum_values.is_none() && (fixed.is_some() || (supply.is_none() && rng.chance(3, 4))) {
+                    let v = fixed.unwrap_or_else(|| rng.pick(&["", "", " ", "0", "''", "'x'", "a b", "NULL", "now()", "true", "~", "활성"]).to_string());
+                    supplied.push((item.table.clone(), item.column.clone(), v.clone()));
+                    fv.insert((item.table.clone(), item.column.clone()), v);
+                }
+            }
+            for action in &mut np.actions {
+                match action {
+                    vespertide_core::MigrationAction::AddColumn { table, column, fill_with } => {
+                        if fill_with.is_none() && let Some(v) = fv.get(&(table.clone(), column.name.clone())) {
+                            *fill_with = Some(v.clone());
+                        }
+                    }
+                    vespertide_core::MigrationAction::ModifyColumnNullable { table, column, fill_with, .. } => {
+                        if fill_with.is_none() && let Some(v) = fv.get(&(table.clone(), column.clone())) {
+                            *fill_with = Some(v.clone());
+                        }
+                    }
+                    _ => {}
+                }
+            }
+        }
         let filled = revision_fill(&np, &baseline);
         let written = filled.as_ref().map(|f| MigrationPlan {
             id: format!("{:08x}-0000-4000-8000-{:012x}", rng.next() as u32, evo_id * 100 + si),
@@ -251,7 +297,7 @@ fn emit_evolution(out: &mut Out, rng: &mut Rng, evo: &[Vec<TableDef>], tag: &str
         out.cases.push(format!("(Rev {} {} {} {})", np.gs(), baseline.gs(), fill_g, valid_g));
         out.side.push(json!({
             "kind": "rev", "tag": tag, "evolution": evo_id, "step": si,
-            "models": models, "history": history, "baseline": baseline, "plan": np, "written": written,
+            "models": models, "history": history, "baseline": baseline, "plan": np, "written": written, "supplied_fill_with": supplied,
             "n_actions": np.actions.len(),
             "oracle": {"ok": ok, "why": valid.as_ref().and_then(|r| r.as_ref().err()).map(|e| e.to_string())},
         }));
@@ -334,7 +380,8 @@ fn main() {
                 let Ok(v) = serde_json::from_str::<Value>(&txt) else { continue };
                 let tag = format!("corpus:{}", f.file_name().unwrap().to_string_lossy());
                 if let Some(ms) = v.get("models").and_then(|m| serde_json::from_value::<Vec<Vec<TableDef>>>(m.clone()).ok()) {
-                    emit_evolution(&mut out, &mut rng, &ms, &tag, evo_id, vec![]);
+                    let supply: Option<Vec<(String, String, String)>> = v.get("supply").and_then(|x| serde_json::from_value(x.clone()).ok());
+                    emit_evolution(&mut out, &mut rng, &ms, &tag, evo_id, vec![], supply.as_ref());
                     evo_id += 1;
                 }
                 // one revision step on top of a stored history (replay files)
@@ -342,7 +389,8 @@ fn main() {
                     v.get("models_now").and_then(|m| serde_json::from_value::<Vec<TableDef>>(m.clone()).ok()),
                     v.get("history").and_then(|m| serde_json::from_value::<Vec<MigrationPlan>>(m.clone()).ok()),
                 ) {
-                    emit_evolution(&mut out, &mut rng, &[now], &tag, evo_id, h);
+                    let supply: Option<Vec<(String, String, String)>> = v.get("supply").and_then(|x| serde_json::from_value(x.clone()).ok());
+                    emit_evolution(&mut out, &mut rng, &[now], &tag, evo_id, h, supply.as_ref());
                     evo_id += 1;
                 }
                 if let Some(t) = v.get("table_yaml").and_then(|m| m.as_str()).and_then(|y| serde_yaml::from_str::<TableDef>(y).ok()) {
@@ -376,7 +424,7 @@ fn main() {
     for _ in 0..n {
         let profile = if rng.chance(1, 2) { Profile::Engine } else { Profile::Loader };
         let evo = gener::gen_evolution(&mut rng, steps, profile, &mut rejected);
-        emit_evolution(&mut out, &mut rng, &evo, "evolution", evo_id, vec![]);
+        emit_evolution(&mut out, &mut rng, &evo, "evolution", evo_id, vec![], None);
         evo_id += 1;
     }
     emit_rt(&mut out, &VespertideConfig::default(), "wild");
